@@ -167,6 +167,7 @@ func c14Pairs(c *Ctx) []pairSpec {
 }
 
 func runC14(c *Ctx) {
+	borrow(c, "O8", "C13", "O8", "plugin handlers fire after the job and node were updated", "incremental queue accounting must be fed the values the node accounting used")
 	p := c.P
 	// O1: inverse pairs
 	for _, ps := range c14Pairs(c) {
